@@ -78,3 +78,7 @@ pub assume_specification<T, U, F: FnOnce(T) -> U> [ Option::<T>::map_or ] (o: Op
     ensures
         o is None ==> r == default,
         o matches Some(x) ==> f.ensures((x,), r);
+
+/// A-std: Option::replace.
+pub assume_specification<T> [ Option::<T>::replace ] (o: &mut Option<T>, value: T) -> (r: Option<T>)
+    ensures r == *old(o), *final(o) == Some(value);
